@@ -141,8 +141,9 @@ def one(arg):
     else:
         # Exactly tied features (duplicates, negated / rescaled copies) have the SAME association with the target; the statistic of x and of -x is computed from
         # reversed ranks and may differ in its last bits, so which of two tied features comes first after a NEGATION is decided by rounding noise.  For that one
-        # re-encoding two selections are compared after replacing every feature by its tie class (features whose recomputed association agrees to 9 digits); every
-        # other re-encoding (rescaling by a power of two, renaming, row / column permutation) leaves the computation bit-identical and is compared exactly.
+        # re-encoding -- and for ROW permutations, which change the order in which the classes of y are met and hence the order of a floating-point sum over the groups --
+        # two selections are compared after replacing every feature by its tie class (features whose recomputed association agrees to 9 digits); the other
+        # re-encodings (rescaling by a power of two, renaming, column permutation) leave the computation bit-identical and are compared exactly.
         def tie_classes():
             cls = {}
             for dtype, feats in (('float', quant), ('str', qual)):
@@ -174,13 +175,13 @@ def one(arg):
         # (3) permute rows / columns / listing order
         p = list(range(len(X))); rng.shuffle(p)
         r2 = outcome(lambda: make_selector(kind, quant, qual, n_best, thresh_corr=tc).select(X.iloc[p], y.iloc[p]))
-        rec('select#post.invariant_under_row_permutation', r2[0] == 'ok' and sel == list(r2[1]), 'rows permuted: %r instead of %r' % (r2[1] if r2[0] == 'ok' else r2[0], sel))
+        rec('select#post.invariant_under_row_permutation', r2[0] == 'ok' and sel_ties == list(r2[1]), 'rows permuted: %r instead of %r' % (r2[1] if r2[0] == 'ok' else r2[0], sel))
         cols = list(X.columns); rng.shuffle(cols)
         r2 = outcome(lambda: make_selector(kind, quant, qual, n_best, thresh_corr=tc).select(X[cols], y))
         rec('select#post.invariant_under_column_permutation', r2[0] == 'ok' and sel == list(r2[1]), 'columns of X permuted (%r): %r instead of %r' % (cols, r2[1] if r2[0] == 'ok' else r2[0], sel))
         # (3b) X listed in another row order than y (same index labels): pandas aligns on labels, the selection must not change
         r2 = outcome(lambda: make_selector(kind, quant, qual, n_best, thresh_corr=tc).select(X.iloc[p], y))
-        rec('select#post.invariant_under_row_permutation', r2[0] == 'ok' and sel == list(r2[1]), 'rows of X listed in another order than y (same labels): %r instead of %r' % (r2[1] if r2[0] == 'ok' else r2[0], sel), dict(reencoding='X_rows_only'))
+        rec('select#post.invariant_under_row_permutation', r2[0] == 'ok' and sel_ties == list(r2[1]), 'rows of X listed in another order than y (same labels): %r instead of %r' % (r2[1] if r2[0] == 'ok' else r2[0], sel), dict(reencoding='X_rows_only'))
         # (3c) a user-supplied outlier measure in front of the association measure: negation must not change the selection
         if kind == 'ClassificationSelector':
             from AutoCarver.selectors.measures import zscore_measure, kruskal_measure
